@@ -150,6 +150,10 @@ func ValidateClientConfig(scheme string, clientconfig *proxyv1alpha1.ClientConfi
 	}
 
 	// validate server ca
+	if clientconfig.Insecure && len(clientconfig.CAData) > 0 {
+		// client-go refuses to build a transport for this combination, the cluster could never be applied
+		allErrs = append(allErrs, field.Invalid(fldPath.Child("caData"), "", "caData can not be set when insecure is true"))
+	}
 	if len(clientconfig.CAData) > 0 {
 		_, err := certutil.ParseCertsPEM(clientconfig.CAData)
 		if err != nil {
